@@ -34,7 +34,7 @@ def _program_exception(e):
     return not isinstance(e, (vnet.Stalled, KeyboardInterrupt, SystemExit))
 REFSHAPES = ("list", "dict", "obj", "callable")      # shapes that may be passed on
 SHAPES = ["scalar", "scalar", "tuple_mixed", "list", "dict", "obj", "callable", "passon", "tuple_plain", "nested_ref_tuple", "cls", "boundmethod",
-          "same_twice"]
+          "same_twice", "frozenset_refs"]
 
 
 class Tok(object):
@@ -162,6 +162,9 @@ def summ(x, shape, invoke=True):
     if shape == "same_twice":
         # one object supplied twice in one call: the callee must see ONE object (x[0] is x[1] in a single process)
         return ("same_twice", x[0] is x[1], x[1] is x[2][0], rc.fingerprint(x[0].tag), x[3] is x[4])
+    if shape == "frozenset_refs":
+        # an immutable CONTAINER whose members are not values (hashable is not plain): read through like any other reference
+        return ("fsr", x[0], sorted(rc.fingerprint(t.tag) for t in x[1]), len(x[1]))
     if shape == "none":
         return ("none", x is None)
     raise AssertionError(shape)
@@ -255,6 +258,8 @@ class Worker(object):
         if shape == "same_twice":
             q, e = Quiet(w, rng_tag), []
             return (q, q, (q, 1), e, e)
+        if shape == "frozenset_refs":
+            return (5, frozenset([Tok(rng_tag + "/a"), Tok(rng_tag + "/b")]))
         if shape == "cls":
             return Tok
         if shape == "boundmethod":
